@@ -226,17 +226,32 @@ def k_cell(run, case):
         E = [f for i, f in enumerate(OUT) if (mask >> (i % 16)) & 1] if mask >= 0 else list(OUT)
         outB = os.path.join(work, "B")
         os.makedirs(outB)
+        # what the existing targets are: files with content, empty files (touch / mkstemp / an
+        # aborted run), or symbolic links to files kept elsewhere
+        erng = run.rng(case, stream=5)
+        existing_kind = case.get("existing") or ["content", "content", "empty", "symlink"][erng.integers(4)]
         for f in E:
             os.makedirs(os.path.dirname(os.path.join(outB, f)) or outB, exist_ok=True)
-            open(os.path.join(outB, f), "wb").write(b"OLD CONTENT of " + f.encode() + b"\n" * 3)
+            dst = os.path.join(outB, f)
+            if existing_kind == "empty":
+                open(dst, "wb").close()
+            elif existing_kind == "symlink":
+                store = os.path.join(work, "store")
+                os.makedirs(store, exist_ok=True)
+                real = os.path.join(store, f.replace(os.sep, "_"))
+                open(real, "wb").write(b"OLD CONTENT of " + f.encode() + b"\n" * 3)
+                os.symlink(real, dst)
+            else:
+                open(dst, "wb").write(b"OLD CONTENT of " + f.encode() + b"\n" * 3)
         before = fsmon.digest_dir(outB)
         with fsmon.Recorder() as rec:
             rB = S.run(outB, ctx, [answer] * 40, no_warnings)
         after = fsmon.digest_dir(outB)
         confirm_on = (not no_warnings) or not S.confirm_switch
         nprompts = len(rB.prompts)
-        run.seen(case, core.digest(S.name, E, answer, no_warnings), nontrivial=bool(E),
+        run.seen(case, core.digest(S.name, E, answer, no_warnings, existing_kind), nontrivial=bool(E),
                  cls=["scenario:" + S.name, "answer:%r" % answer, "warnings off" if not confirm_on else "warnings on",
+                      "existing targets: " + existing_kind,
                       "existing:%d/%d" % (len(E), len(OUT))],
                  sample={"scenario": S.name, "outputs": OUT, "pre_existing": E, "answer": answer,
                          "no_warnings": no_warnings, "prompts": nprompts,
